@@ -10,6 +10,9 @@ pub enum Naming {
     Fresh,
     /// reuse the smallest pool of names that does not capture (maximal shadowing)
     Pool(usize),
+    /// name a binder after a type mentioned in its *own annotation* whenever that name is not used
+    /// in the binder's scope (an annotation is outside the scope of the binder it annotates)
+    TypePun,
 }
 
 #[derive(Clone, Debug)]
@@ -111,6 +114,95 @@ pub fn fv_c(c: &C, out: &mut BTreeSet<Var>) {
     }
 }
 
+/// every identifier that printing `c` would emit in a type position or as a host/declaration name
+pub fn type_words_c(c: &C, out: &mut BTreeSet<String>) {
+    fn words(s: &str, out: &mut BTreeSet<String>) {
+        for w in s.split(|c: char| !c.is_alphanumeric()) {
+            if !w.is_empty() {
+                out.insert(w.to_string());
+            }
+        }
+    }
+    fn pat(p: &Pat, out: &mut BTreeSet<String>) {
+        words(&vt(&pat_type(p)), out);
+    }
+    fn val(v: &V, out: &mut BTreeSet<String>) {
+        match v {
+            | V::Tuple(vs) => vs.iter().for_each(|v| val(v, out)),
+            | V::Named(_, v) | V::Proj(v, _, _) => val(v, out),
+            | V::Thunk(c, t) => {
+                words(&ct(t), out);
+                out.insert("Thk".into());
+                type_words_c(c, out);
+            }
+            | V::Ctor(d, _, v) => {
+                out.insert(data_decls()[*d].name.to_string());
+                val(v, out);
+            }
+            | _ => {}
+        }
+    }
+    match c {
+        | C::Ret(v) | C::Force(v) | C::Exit(v) => val(v, out),
+        | C::Do(p, a, b) => {
+            pat(p, out);
+            type_words_c(a, out);
+            type_words_c(b, out);
+        }
+        | C::Let(p, v, t, b) => {
+            pat(p, out);
+            words(&vt(t), out);
+            val(v, out);
+            type_words_c(b, out);
+        }
+        | C::Fn(p, b) => {
+            pat(p, out);
+            type_words_c(b, out);
+        }
+        | C::Fix(_, t, b) => {
+            words(&ct(t), out);
+            out.insert("Thk".into());
+            type_words_c(b, out);
+        }
+        | C::Ann(b, t) => {
+            words(&ct(t), out);
+            type_words_c(b, out);
+        }
+        | C::Dtor(b, _, _) => type_words_c(b, out),
+        | C::App(f, v) => {
+            type_words_c(f, out);
+            val(v, out);
+        }
+        | C::Match(v, _, arms) => {
+            val(v, out);
+            arms.iter().for_each(|(_, b)| type_words_c(b, out));
+        }
+        | C::Comatch(d, arms) => {
+            out.insert(codata_decls()[*d].name.to_string());
+            arms.iter().for_each(|a| type_words_c(a, out));
+        }
+        | C::WriteInt(v, k) | C::WriteLine(v, k) => {
+            val(v, out);
+            type_words_c(k, out);
+        }
+        | C::Arith(_, a, b) => {
+            val(a, out);
+            val(b, out);
+        }
+        | C::IfLt(a, b, t, x, y) | C::IfEq(a, b, t, x, y) => {
+            val(a, out);
+            val(b, out);
+            words(&ct(t), out);
+            type_words_c(x, out);
+            type_words_c(y, out);
+        }
+        | C::ReadLine(_, k) => {
+            out.insert("String".into());
+            type_words_c(k, out);
+        }
+    }
+}
+
 /* ------------------------------------ types ----------------------------------- */
 
 pub fn vt(t: &VT) -> String {
@@ -167,6 +259,8 @@ pub struct Printer {
     /// (binder var -> printed name) for every binder, in print order (for the scoping oracle)
     pub binder_names: Vec<(Var, String)>,
     host: String,
+    /// type names printed anywhere inside the scope currently being bound (TypePun naming)
+    scope_types: BTreeSet<String>,
 }
 
 #[derive(Clone, Copy, PartialEq)]
@@ -178,7 +272,7 @@ enum Ctx {
 
 impl Printer {
     pub fn new(cfg: Cfg) -> Self {
-        Printer { cfg, scope: vec![], binder_names: vec![], host: "h".into() }
+        Printer { cfg, scope: vec![], binder_names: vec![], host: "h".into(), scope_types: BTreeSet::new() }
     }
 
     fn name_of(&self, x: Var) -> String {
@@ -189,6 +283,7 @@ impl Printer {
     fn choose(&self, x: Var, fv: &BTreeSet<Var>, taken: &[String]) -> String {
         match self.cfg.naming {
             | Naming::Fresh => format!("v{}", x),
+            | Naming::TypePun => format!("v{}", x),
             | Naming::Pool(k) => {
                 for cand in POOL.iter().take(k.max(1)) {
                     if taken.iter().any(|t| t == cand) {
@@ -214,13 +309,46 @@ impl Printer {
         let mut bs = vec![];
         p.binders(&mut bs);
         let mut taken: Vec<String> = vec![];
-        for (x, _) in &bs {
-            let n = self.choose(*x, fv, &taken);
+        for (bi, (x, t)) in bs.iter().enumerate() {
+            let mut n = self.choose(*x, fv, &taken);
+            if self.cfg.naming == Naming::TypePun {
+                // pattern components bind left to right: the annotations of later components lie in
+                // this binder's scope
+                let mut later: BTreeSet<String> = BTreeSet::new();
+                for (_, lt) in &bs[bi + 1..] {
+                    for w in vt(lt).split(|c: char| !c.is_alphanumeric()) {
+                        later.insert(w.to_string());
+                    }
+                }
+                // candidate: a type name from the binder's own annotation, unused in its scope
+                let words: Vec<String> = vt(t).split(|c: char| !c.is_alphanumeric()).filter(|w| !w.is_empty() && w.chars().next().unwrap().is_uppercase()).map(|w| w.to_string()).collect();
+                for w in words {
+                    let outer = self.scope.iter().rev().find(|(_, name)| *name == w).map(|(y, _)| *y);
+                    let captures_term = matches!(outer, Some(y) if y != *x && fv.contains(&y));
+                    if !self.scope_types.contains(&w) && !later.contains(&w) && !taken.contains(&w) && !captures_term {
+                        n = w;
+                        break;
+                    }
+                }
+            }
             taken.push(n.clone());
             self.binder_names.push((*x, n.clone()));
             self.scope.push((*x, n));
         }
         bs.len()
+    }
+    /// bind `p` with scope `body`
+    fn bind_in(&mut self, p: &Pat, body: &C) -> usize {
+        let mut fv = BTreeSet::new();
+        fv_c(body, &mut fv);
+        let mut types = BTreeSet::new();
+        if self.cfg.naming == Naming::TypePun {
+            type_words_c(body, &mut types);
+            // the host package and declaration names are always in scope-relevant positions
+            types.insert("h".into());
+        }
+        self.scope_types = types;
+        self.bind_pat(p, &fv)
     }
     fn unbind(&mut self, n: usize) {
         for _ in 0..n {
@@ -335,9 +463,7 @@ impl Printer {
             | C::Force(v) => format!("! {}", self.value(v)),
             | C::Do(p, a, b) => {
                 let a_s = self.comp(a, Ctx::Tight);
-                let mut fv = BTreeSet::new();
-                fv_c(b, &mut fv);
-                let n = self.bind_pat(p, &fv);
+                let n = self.bind_in(p, b);
                 let p_s = self.pat(p, true);
                 let b_s = self.comp(b, Ctx::Tail);
                 self.unbind(n);
@@ -345,28 +471,22 @@ impl Printer {
             }
             | C::Let(p, v, t, b) => {
                 let v_s = self.value(v);
-                let mut fv = BTreeSet::new();
-                fv_c(b, &mut fv);
-                let n = self.bind_pat(p, &fv);
+                let n = self.bind_in(p, b);
                 let p_s = self.pat(p, false);
                 let b_s = self.comp(b, Ctx::Tail);
                 self.unbind(n);
                 format!("let {} : {} = {} in{}{}", p_s, vt(t), v_s, self.sep(), b_s)
             }
             | C::Fn(p, b) => {
-                let mut fv = BTreeSet::new();
-                fv_c(b, &mut fv);
-                let n = self.bind_pat(p, &fv);
+                let n = self.bind_in(p, b);
                 let p_s = self.pat(p, true);
                 let b_s = self.comp(b, Ctx::Tail);
                 self.unbind(n);
                 format!("fn {} => {}", p_s, b_s)
             }
             | C::Fix(f, t, b) => {
-                let mut fv = BTreeSet::new();
-                fv_c(b, &mut fv);
                 let p = Pat::Var(*f, thk(t.clone()));
-                let n = self.bind_pat(&p, &fv);
+                let n = self.bind_in(&p, b);
                 let p_s = self.pat(&p, true);
                 let b_s = self.comp(b, Ctx::Tail);
                 self.unbind(n);
@@ -385,9 +505,7 @@ impl Printer {
                 let v_s = self.value(v);
                 let mut out = format!("match {}", v_s);
                 for (p, b) in arms {
-                    let mut fv = BTreeSet::new();
-                    fv_c(b, &mut fv);
-                    let n = self.bind_pat(p, &fv);
+                    let n = self.bind_in(p, b);
                     let p_s = self.pat(p, false);
                     let b_s = self.comp(b, Ctx::Tail);
                     self.unbind(n);
@@ -443,10 +561,8 @@ impl Printer {
                 format!("{} {}", self.host_op("exit"), v_s)
             }
             | C::ReadLine(x, k) => {
-                let mut fv = BTreeSet::new();
-                fv_c(k, &mut fv);
                 let p = Pat::Var(*x, VT::Str);
-                let n = self.bind_pat(&p, &fv);
+                let n = self.bind_in(&p, k);
                 let p_s = self.pat(&p, true);
                 let k_s = self.comp(k, Ctx::Tail);
                 self.unbind(n);
